@@ -26,6 +26,7 @@ type RaceReport struct {
 	Field    string    `json:"field"` // struct field containing the address, if it lies in a walked structure
 	Phase    string    `json:"phase"`
 	Origin   *Mismatch `json:"origin,omitempty"` // the program, data and configuration that was running
+	Fatal     string   `json:"fatal,omitempty"`     // set when the runtime aborted the program ("concurrent-map-writes", ...)
 	AddrIn    string   `json:"addressIn"`           // the field the raced address itself lies in
 	WriteSite string   `json:"writeSite"`           // file:line of the innermost robfig/soy frame of the writing access
 	depth     int
@@ -148,3 +149,38 @@ func ReadRaceLogs(prefix string) string {
 }
 
 func regexpMust(s string) *regexp.Regexp { return regexp.MustCompile(s) }
+
+var reFatal = regexp.MustCompile(`(?m)^fatal error: (concurrent map [a-z ]+)$`)
+var reStackFn = regexp.MustCompile(`^(\S.*)\([^()]*\)$`)
+
+// parseFatal recognises a program stopped by the runtime's own detection of
+// unsynchronised map access and finds the robfig/soy function doing it.
+func parseFatal(stderr string) *RaceReport {
+	m := reFatal.FindStringSubmatchIndex(stderr)
+	if m == nil {
+		return nil
+	}
+	kind := strings.ReplaceAll(stderr[m[2]:m[3]], " ", "-")
+	rest := stderr[m[1]:]
+	r := &RaceReport{Fatal: kind, Raw: trunc(stderr[m[0]:], 4000)}
+	// the first goroutine dumped is the one that hit the check
+	started := false
+	for _, ln := range strings.Split(rest, "\n") {
+		if strings.HasPrefix(ln, "goroutine ") {
+			if started {
+				break
+			}
+			started = true
+			continue
+		}
+		if !started || strings.HasPrefix(ln, "\t") {
+			continue
+		}
+		if fm := reStackFn.FindStringSubmatch(strings.TrimSpace(ln)); fm != nil && strings.HasPrefix(fm[1], soyPkg) {
+			r.InSoy = true
+			r.TopSoyFn = strings.TrimPrefix(fm[1], soyPkg)
+			break
+		}
+	}
+	return r
+}
